@@ -6,6 +6,8 @@
 //!   dsverif <prop> replay <file.json>                    > cases.jsonl
 mod util;
 mod c05;
+mod dynschema;
+mod router;
 
 use std::io::Write;
 use util::Opts;
@@ -59,6 +61,8 @@ fn main() {
     };
     match prop {
         "c05" => c05::run(&opts, replay, &mut out),
+        "router" => router::run(&opts, replay, &mut out, 8),
+        "router-conflicts" => router::run(&opts, replay, &mut out, 45),
         _ => {
             eprintln!("unknown property {}", prop);
             std::process::exit(2);
